@@ -26,7 +26,10 @@ TOML_KEY = {"swift_prefix": ("swift", "prefix"), "kotlin_prefix": ("kotlin", "pr
 EXPOSES = {"swift": ["swift_prefix"], "kotlin": ["kotlin_prefix", "java_package"], "scala": ["scala_package"], "go": ["go_package"]}
 SRC = ("#[typeshare]\npub struct Foo { pub user_id: u32, pub m: Mapped, pub list: Option<Vec<u32>>, pub home_url: String, pub m2: Mapped2, pub unit: (),\n"
        "    pub id2: u32, pub url_2: String, pub by_account: HashMap<AccountId, u32>, pub page: Gen<AccountId> }\n"
-       "#[typeshare]\npub struct Gen<T> { pub v: T }\n#[typeshare]\npub struct AccountId { pub v: u32 }\n")
+       "#[typeshare]\npub struct Gen<T> { pub v: T }\n#[typeshare]\npub struct AccountId { pub v: u32 }\n"
+       # generic items one of whose parameters ALSO carries constraints of its own: the configured defaults apply to every parameter
+       '#[typeshare(swiftGenericConstraints = "A: Equatable")]\npub struct Ann<A, B> { pub a: A, pub b: B }\n'
+       '#[typeshare(swiftGenericConstraints = "T: Equatable")]\n#[serde(tag = "t", content = "c")]\npub enum Look<T> { Hit { v: T }, Miss }\n')
 # MC_C20!TableProfiles: the file-only tables written into every configuration file of a cell
 PROFILES = {
     "basic": {
@@ -117,7 +120,12 @@ def observe(lang, text, profile="basic"):
         gen = [d for d in o["defs"] if d["name"].endswith("Gen")][0]
         void = o.get("helper_inherits", {}).get("CodableVoid")
         tobs["default_decorators"] = [d for d in t.get("default_decorators", []) if d in foo.get("inherits", [])]
-        tobs["default_generic_constraints"] = [c for c in t.get("default_generic_constraints", []) if c in gen.get("generic_constraints", {}).get("T", [])]
+        # every generic parameter of every generic item (with and without constraints of its own, the derived helper type of Look::Hit too)
+        places = [gen.get("generic_constraints", {}).get("T", [])]
+        for suffix, params in (("Ann", ("A", "B")), ("Look", ("T",)), ("LookHitInner", ("T",))):
+            for d in [d for d in o["defs"] if d["name"].endswith(suffix)][:1]:
+                places += [d.get("generic_constraints", {}).get(p_, []) for p_ in params]
+        tobs["default_generic_constraints"] = [c for c in t.get("default_generic_constraints", []) if all(c in pl for pl in places)]
         if "codablevoid_constraints" in t:
             tobs["codablevoid_constraints"] = [c for c in t["codablevoid_constraints"] if void and c in void]
     elif lang == "kotlin":
